@@ -1083,8 +1083,21 @@ func (fr *Frame) instr(ins ssa.Instruction, reach *Term, st *State) *Term {
 	case *ssa.Send:
 		vc.unsupported("%s: channel send", vc.short)
 	case *ssa.Select:
+		v := vc.freshVal(ins.Name(), ins.Type())
+		fr.setReg(ins, v)
+		if fr.depth == 0 && fr.fc != nil && fr.fc.SelectDone != "" && !ins.Blocking && len(ins.States) == 1 && ins.States[0].Dir == types.RecvOnly {
+			// `select { case <-ctx.Done(): ...; default: }`: the receive case is ready iff the channel is closed, i.e. iff the
+			// context is cancelled, which the contract tracks in a ghost variable (set by the callbacks' contracts)
+			if gd, ok := vc.e.Ghosts[fr.fc.SelectDone]; ok {
+				n := "ghost." + fr.fc.SelectDone
+				vc.noteSort(n, gd.Sort)
+				g := vc.sv(st, n, gd.Sort)
+				idx := v.Leaves[0]
+				vc.assume(reach, And(Or(Eq(idx, Zero), Eq(idx, NumI(-1))), App("=", Eq(idx, Zero), g)))
+				break
+			}
+		}
 		vc.unsupported("%s: select", vc.short)
-		fr.setReg(ins, vc.freshVal(ins.Name(), ins.Type()))
 	case *ssa.Range:
 		vc.unsupported("%s: range over map/string", vc.short)
 		fr.setReg(ins, scalar(ins.Type(), vc.fresh("rangeiter", "Int")))
